@@ -555,130 +555,134 @@ def run(ctx):
     ctx.extra['checker_summaries'] = sorted({'%s: %s' % (strip_targs(u.qualname(f)), rd.checkers[f.get('mangledName')]) for f in rd.methods if f.get('mangledName') in rd.checkers})[:80]
 
     # ---- R1
-    R = 'C02-R1'
-    discharged = []
-    for cm in (rd, bw):
-        for f in cm.methods:
-            if f.get('kind') == 'CXXConstructorDecl':
-                continue
-            lab = cm.label(f)
-            acc = cm.accesses(f)
-            if acc:
-                ctx.fn(lab)
-            counts = {}
-            for node, A, E, how in acc:
-                k0 = '%s|%s+%s' % (lab, A, E)
-                counts[k0] = counts.get(k0, 0) + 1
-                key = k0 if counts[k0] == 1 else '%s#%d' % (k0, counts[k0])
-                if E is None:
-                    ctx.undecided(R, key, node, 'cannot determine the extent of this buffer access (%s)' % how)
+    with ctx.section('C02-R1', 'C02'):
+        R = 'C02-R1'
+        discharged = []
+        for cm in (rd, bw):
+            for f in cm.methods:
+                if f.get('kind') == 'CXXConstructorDecl':
                     continue
-                ok, why = inbounds(cm.rels(node), A, E, cm.cap)
-                if ok:
-                    discharged.append(node)
-                    discharged_nodes_A[id(node)] = A
-                    discharged_nodes_E[id(node)] = E
-                ctx.check(ok, R, key, node, '%s [%s] %s' % (src_text(node, 80), how, why), '%s: access %s of extent %s (%s): %s' % (src_text(node, 80), A, E, how, why))
+                lab = cm.label(f)
+                acc = cm.accesses(f)
+                if acc:
+                    ctx.fn(lab)
+                counts = {}
+                for node, A, E, how in acc:
+                    k0 = '%s|%s+%s' % (lab, A, E)
+                    counts[k0] = counts.get(k0, 0) + 1
+                    key = k0 if counts[k0] == 1 else '%s#%d' % (k0, counts[k0])
+                    if E is None:
+                        ctx.undecided(R, key, node, 'cannot determine the extent of this buffer access (%s)' % how)
+                        continue
+                    ok, why = inbounds(cm.rels(node), A, E, cm.cap)
+                    if ok:
+                        discharged.append(node)
+                        discharged_nodes_A[id(node)] = A
+                        discharged_nodes_E[id(node)] = E
+                    ctx.check(ok, R, key, node, '%s [%s] %s' % (src_text(node, 80), how, why), '%s: access %s of extent %s (%s): %s' % (src_text(node, 80), A, E, how, why))
 
     # ---- R2 cursor writes
-    R = 'C02-R2'
-    ret_ext = returned_extent_functions(rd, discharged)
-    cstr_ext = cstr_extent_functions(rd)
-    ctx.extra['returned_extent_functions'] = sorted(ret_ext.values()) and sorted({strip_targs(u.qualname(f)) for f in rd.methods if f.get('mangledName') in ret_ext})
-    ctx.extra['cstr_extent_functions'] = sorted({strip_targs(u.qualname(f)) for f in rd.methods if f.get('mangledName') in cstr_ext})
-    for f in rd.methods:
-        if f.get('kind') in ('CXXConstructorDecl', 'CXXDestructorDecl') or f.get('name') in ('go', 'operator='):
-            continue
-        body = body_of(f)
-        lab = rd.label(f)
-        n = 0
-        for x in walk(body):
-            k = x.get('kind')
-            is_w = False
-            D = None
-            if k in ('BinaryOperator', 'CompoundAssignOperator') and x.get('opcode') in ASSIGN_OPS and canon(x['inner'][0]) == 'this.offset':
-                is_w = True
-                op = x.get('opcode')
-                if op == '+=':
-                    D = x['inner'][1]
-                elif op == '=':
-                    D = ('=', x['inner'][1])
-                else:
-                    D = ('?', None)
-            elif k == 'UnaryOperator' and x.get('opcode') in ('++', '--') and canon(x['inner'][0]) == 'this.offset':
-                is_w = True
-                D = ('1', None) if x.get('opcode') == '++' else ('?', None)
-            if not is_w:
+    with ctx.section('C02-R2', 'C02'):
+        R = 'C02-R2'
+        ret_ext = returned_extent_functions(rd, discharged)
+        cstr_ext = cstr_extent_functions(rd)
+        ctx.extra['returned_extent_functions'] = sorted(ret_ext.values()) and sorted({strip_targs(u.qualname(f)) for f in rd.methods if f.get('mangledName') in ret_ext})
+        ctx.extra['cstr_extent_functions'] = sorted({strip_targs(u.qualname(f)) for f in rd.methods if f.get('mangledName') in cstr_ext})
+        for f in rd.methods:
+            if f.get('kind') in ('CXXConstructorDecl', 'CXXDestructorDecl') or f.get('name') in ('go', 'operator='):
                 continue
-            n += 1
-            ctx.fn(lab)
-            key = '%s|cursor-write#%d' % (lab, n)
-            if isinstance(D, tuple):
-                if D[0] == '=':
-                    val = rd.inl.c(D[1])
-                    rels = rd.rels(x)
-                    ok = val == rd.cap or _holds_le(rels, val, rd.cap)
-                    ptr_diff = any(y.get('kind') == 'BinaryOperator' and y.get('opcode') == '-' and '*' in (qtype(strip(y['inner'][0])) or '') for y in walk(D[1]))
-                    if not ok and ptr_diff:
-                        ctx.undecided(R, key, x, 'the cursor is set from a pointer difference (%s): positions obtained from iterator / pointer searches are not modelled' % val)
+            body = body_of(f)
+            lab = rd.label(f)
+            n = 0
+            for x in walk(body):
+                k = x.get('kind')
+                is_w = False
+                D = None
+                if k in ('BinaryOperator', 'CompoundAssignOperator') and x.get('opcode') in ASSIGN_OPS and canon(x['inner'][0]) == 'this.offset':
+                    is_w = True
+                    op = x.get('opcode')
+                    if op == '+=':
+                        D = x['inner'][1]
+                    elif op == '=':
+                        D = ('=', x['inner'][1])
+                    else:
+                        D = ('?', None)
+                elif k == 'UnaryOperator' and x.get('opcode') in ('++', '--') and canon(x['inner'][0]) == 'this.offset':
+                    is_w = True
+                    D = ('1', None) if x.get('opcode') == '++' else ('?', None)
+                if not is_w:
+                    continue
+                n += 1
+                ctx.fn(lab)
+                key = '%s|cursor-write#%d' % (lab, n)
+                if isinstance(D, tuple):
+                    if D[0] == '=':
+                        val = rd.inl.c(D[1])
+                        rels = rd.rels(x)
+                        ok = val == rd.cap or _holds_le(rels, val, rd.cap)
+                        ptr_diff = any(y.get('kind') == 'BinaryOperator' and y.get('opcode') == '-' and '*' in (qtype(strip(y['inner'][0])) or '') for y in walk(D[1]))
+                        if not ok and ptr_diff:
+                            ctx.undecided(R, key, x, 'the cursor is set from a pointer difference (%s): positions obtained from iterator / pointer searches are not modelled' % val)
+                            continue
+                        ctx.check(ok, R, key, x, 'cursor set to %s (within the data)' % val, 'cursor assigned %s, which is not known to be <= length' % val)
                         continue
-                    ctx.check(ok, R, key, x, 'cursor set to %s (within the data)' % val, 'cursor assigned %s, which is not known to be <= length' % val)
-                    continue
-                if D[0] == '1':
-                    Dn, Dc = None, '1'
+                    if D[0] == '1':
+                        Dn, Dc = None, '1'
+                    else:
+                        ctx.bad(R, key, x, 'cursor modified by an operator other than += / = / ++')
+                        continue
                 else:
-                    ctx.bad(R, key, x, 'cursor modified by an operator other than += / = / ++')
+                    Dn, Dc = D, rd.inl.c(D)
+                rels = rd.rels(x)
+                ok, why = inbounds(rels, 'this.offset', Dc, rd.cap)
+                if ok:
+                    ctx.ok(R, key, x, 'advance by %s: %s' % (Dc, why))
                     continue
-            else:
-                Dn, Dc = D, rd.inl.c(D)
-            rels = rd.rels(x)
-            ok, why = inbounds(rels, 'this.offset', Dc, rd.cap)
-            if ok:
-                ctx.ok(R, key, x, 'advance by %s: %s' % (Dc, why))
-                continue
-            # J2 returned extent
-            j = _returned_extent_justification(rd, x, Dn, Dc, ret_ext, cstr_ext)
-            if j:
-                ctx.ok(R, key, x, 'advance by %s: %s' % (Dc, j))
-                continue
-            # J3 clamp-after
-            if _clamp_follows(rd, x):
-                ctx.ok(R, key, x, 'advance by %s is followed by the clamp `if (offset > length) offset = length` on every path' % Dc)
-                continue
-            if ' ? ' in Dc or 'memchr' in Dc or 'strnlen' in Dc or any('*' in (qtype(y) or '') and y.get('kind') == 'BinaryOperator' and y.get('opcode') == '-' for y in (walk(Dn) if Dn is not None else [])):
-                ctx.undecided(R, key, x, 'the cursor is advanced by `%s`, an expression (conditional / pointer difference / library search) the bounds engine does not model' % Dc)
-                continue
-            ctx.bad(R, key, x, 'cursor advanced by %s without a dominating bounds check of that extent, a clamping read that returned it, or a following clamp: the cursor can end beyond the data (remaining() underflows). %s' % (Dc, why))
+                # J2 returned extent
+                j = _returned_extent_justification(rd, x, Dn, Dc, ret_ext, cstr_ext)
+                if j:
+                    ctx.ok(R, key, x, 'advance by %s: %s' % (Dc, j))
+                    continue
+                # J3 clamp-after
+                if _clamp_follows(rd, x):
+                    ctx.ok(R, key, x, 'advance by %s is followed by the clamp `if (offset > length) offset = length` on every path' % Dc)
+                    continue
+                if ' ? ' in Dc or 'memchr' in Dc or 'strnlen' in Dc or any('*' in (qtype(y) or '') and y.get('kind') == 'BinaryOperator' and y.get('opcode') == '-' for y in (walk(Dn) if Dn is not None else [])):
+                    ctx.undecided(R, key, x, 'the cursor is advanced by `%s`, an expression (conditional / pointer difference / library search) the bounds engine does not model' % Dc)
+                    continue
+                ctx.bad(R, key, x, 'cursor advanced by %s without a dominating bounds check of that extent, a clamping read that returned it, or a following clamp: the cursor can end beyond the data (remaining() underflows). %s' % (Dc, why))
 
     # ---- R3 StringWriter::pput
     check_pput(ctx, u, 'C02-R3')
 
     # ---- R4 exception types
-    R = 'C02-R4'
-    for cm, allowed in ((rd, {'std::out_of_range': None, 'std::invalid_argument': {'truncate'}}), (bw, {'std::runtime_error': None})):
-        for f in cm.methods:
-            body = body_of(f)
-            i = 0
-            for t in walk(body):
-                if t.get('kind') == 'CXXThrowExpr':
-                    i += 1
-                    ty = (dtype(kids(t)[0]) or '').replace('const ', '') if kids(t) else '<rethrow>'
-                    fnm = f.get('name')
-                    ok = ty in allowed and (allowed[ty] is None or fnm in allowed[ty])
-                    ctx.check(ok, R, '%s|throw#%d' % (cm.label(f), i), t, 'throws %s' % ty, 'throws %s, not the documented exception type' % ty)
+    with ctx.section('C02-R4', 'C02'):
+        R = 'C02-R4'
+        for cm, allowed in ((rd, {'std::out_of_range': None, 'std::invalid_argument': {'truncate'}}), (bw, {'std::runtime_error': None})):
+            for f in cm.methods:
+                body = body_of(f)
+                i = 0
+                for t in walk(body):
+                    if t.get('kind') == 'CXXThrowExpr':
+                        i += 1
+                        ty = (dtype(kids(t)[0]) or '').replace('const ', '') if kids(t) else '<rethrow>'
+                        fnm = f.get('name')
+                        ok = ty in allowed and (allowed[ty] is None or fnm in allowed[ty])
+                        ctx.check(ok, R, '%s|throw#%d' % (cm.label(f), i), t, 'throws %s' % ty, 'throws %s, not the documented exception type' % ty)
 
     # ---- R5 exact slice in the throwing forms
-    R = 'C02-R5'
-    for f in rd.methods:
-        nm = f.get('name')
-        if nm not in ('subx', 'subx_bits', 'preadx', 'pgetv', 'peek'):
-            continue
-        lab = rd.label(f)
-        ps = [p.get('name') for p in params_of(f)]
-        for node, A, E, how in rd.accesses(f):
-            wantA = 'offset' if 'offset' in ps else 'this.offset'
-            wantE = 'size' if 'size' in ps else '(this.length - %s)' % wantA
-            ctx.check(A == wantA and E == wantE, R, '%s|slice' % lab, node, 'slice [%s, %s+%s)' % (A, A, E), 'throwing form hands out [%s, +%s) instead of the requested [%s, +%s)' % (A, E, wantA, wantE))
+    with ctx.section('C02-R5', 'C02'):
+        R = 'C02-R5'
+        for f in rd.methods:
+            nm = f.get('name')
+            if nm not in ('subx', 'subx_bits', 'preadx', 'pgetv', 'peek'):
+                continue
+            lab = rd.label(f)
+            ps = [p.get('name') for p in params_of(f)]
+            for node, A, E, how in rd.accesses(f):
+                wantA = 'offset' if 'offset' in ps else 'this.offset'
+                wantE = 'size' if 'size' in ps else '(this.length - %s)' % wantA
+                ctx.check(A == wantA and E == wantE, R, '%s|slice' % lab, node, 'slice [%s, %s+%s)' % (A, A, E), 'throwing form hands out [%s, +%s) instead of the requested [%s, +%s)' % (A, E, wantA, wantE))
     ctx.note('Scope: StringReader, BufferWriter, StringWriter in Strings.hh/Strings.cc, every instantiation of get/pget/put/pput present in Strings.cc. BitReader performs no checks by design and is not in scope.')
 
 
